@@ -149,3 +149,9 @@ def run(ck):
     from props import common
 
     common.import_results(ck, C02, "4", "Channel", "3")
+    from props import C06, C11, C17
+
+    common.import_results(ck, C06, "2", "dispatch_events", "3")
+    common.import_results(ck, C05, "5", "Timer", "1b")
+    common.import_results(ck, C11, "2", "Poll::poll", "1")
+    common.import_results(ck, C17, "2", "IoLoopInner", "3")
